@@ -133,6 +133,7 @@ func main() {
 	seedFlag := flag.String("seed", os.Getenv("VERIF_SEED"), "base seed")
 	replay := flag.String("replay", "", "replay file")
 	selftest := flag.String("selftest", "", "determinism")
+	repro := flag.String("repro", "", "run one configuration (JSON file) and minimise what it finds for the property")
 	runs := flag.Int("runs", 0, "override the number of runs")
 	budget := flag.Int("budget", 0, "override the wall-clock budget in seconds")
 	flag.Usage = func() {
@@ -171,6 +172,8 @@ func main() {
 	switch {
 	case *replay != "":
 		os.Exit(doReplay(*replay))
+	case *repro != "":
+		os.Exit(doRepro(*repro, prop))
 	case *selftest == "determinism":
 		os.Exit(doDeterminism(seed, *runs))
 	case prop != "":
